@@ -146,6 +146,29 @@ func dropQualifiedAttributes(el *etree.Element) {
 	}
 }
 
+// renameNamespacePrefixes gives every namespace prefix in el's subtree a name that no
+// attribute has ("ns." in front). encoding/xml hands namespace declarations to the
+// struct decoder like attributes and matches them by local name too, so that
+// xmlns:ID="urn:x" is read as ID="urn:x" wherever it is the last match - also when the
+// prefix is in use and the declaration cannot simply be dropped.
+func renameNamespacePrefixes(el *etree.Element) {
+	if el.Space != "" {
+		el.Space = "ns." + el.Space
+	}
+	for i := range el.Attr {
+		a := &el.Attr[i]
+		switch {
+		case a.Space == "xmlns":
+			a.Key = "ns." + a.Key
+		case a.Space != "" && a.Space != "xml":
+			a.Space = "ns." + a.Space
+		}
+	}
+	for _, c := range el.ChildElements() {
+		renameNamespacePrefixes(c)
+	}
+}
+
 func xmlUnmarshalElement(el *etree.Element, obj interface{}) error {
 	// Decode a copy without the attributes and namespace declarations that mean nothing
 	// to the SAML types; the element itself is left as it is (it may still have to be
@@ -153,6 +176,7 @@ func xmlUnmarshalElement(el *etree.Element, obj interface{}) error {
 	el = el.Copy()
 	dropQualifiedAttributes(el)
 	el.Attr = withoutUnusedNamespaceDeclarations(el)
+	renameNamespacePrefixes(el)
 
 	doc := etree.NewDocument()
 	// Escape CR (and TAB/LF in attribute values) as character references so that the
